@@ -271,7 +271,11 @@ func (in *inst) rawBuild(op *Op) outcome {
 	in.built = true
 	switch p.Kind {
 	case "jschema":
-		in.js = jschema.New(p.Name, p.Text)
+		if p.Opt == "optkeys" {
+			in.js = jschema.New(p.Name, p.Text, func(s *jschema.JSchema) { s.AreKeysOptionalByDefault = true })
+		} else {
+			in.js = jschema.New(p.Name, p.Text)
+		}
 		rperm, tperm := op.RPerm, op.TPerm
 		if !validPerm(rperm, len(p.Rules)) {
 			rperm = identity(len(p.Rules))
@@ -310,7 +314,12 @@ func (in *inst) rawBuild(op *Op) outcome {
 		}
 		return outcome{obs: sb.String()}
 	case "rschema":
-		in.rs = regex.New(p.Name, p.Text)
+		if strings.HasPrefix(p.Opt, "seed=") {
+			n, _ := strconv.ParseInt(p.Opt[5:], 10, 64)
+			in.rs = regex.New(p.Name, p.Text, regex.WithGeneratorSeed(n))
+		} else {
+			in.rs = regex.New(p.Name, p.Text)
+		}
 	case "enum":
 		in.en = enum.New(p.Name, p.Text)
 	}
@@ -377,8 +386,18 @@ func (in *inst) rawCall(kind string, sharedObj bool) (key string, out outcome) {
 			if err := s.Check(); err != nil {
 				return key, outcome{obs: "n/a: " + errText(err)}
 			}
-			b, err := openapi.NewSchemaObject(s).MarshalJSON()
-			return key, bytesOutcome(b, err)
+			so := openapi.NewSchemaObject(s)
+			b, err := so.MarshalJSON()
+			// the same object again with a description set
+			so.SetDescription("d\n\"q\" <é>")
+			b2, err2 := so.MarshalJSON()
+			o := outcome{obs: valErr(strconv.Quote(string(b)), err) + "\nwith description: " + valErr(strconv.Quote(string(b2)), err2)}
+			if b != nil || b2 != nil {
+				o.live = func() string {
+					return valErr(strconv.Quote(string(b)), err) + "\nwith description: " + valErr(strconv.Quote(string(b2)), err2)
+				}
+			}
+			return key, o
 		case "inner":
 			// The internal tree (exported: JSchema.Inner; it is what a validator
 			// walks) after compilation: the same for the same input, and untouched
@@ -488,10 +507,20 @@ func (in *inst) rawCall(kind string, sharedObj bool) (key string, out outcome) {
 				return key, outcome{obs: "n/a: " + errText(err)}
 			}
 			infs := openapi.Dereference(s)
+			var top openapi.SchemaInformer
+			if in.js != nil {
+				top = openapi.NewJSchemaInfo(in.js)
+			} else if in.rs != nil {
+				top = openapi.NewRSchemaInfo(in.rs)
+			}
 			f := func() string {
 				var sb strings.Builder
 				for _, inf := range infs {
 					writeInformer(&sb, inf, 0)
+				}
+				if top != nil {
+					sb.WriteString("schema info: ")
+					writeInformer(&sb, top, 0)
 				}
 				return sb.String()
 			}
